@@ -418,6 +418,10 @@ var propAssumptions = map[string][]string{
 		"representation invariant of ECDSA key objects (non-nil context, curve of the Go key = curve of the context, non-nil coordinates / scalar) is a precondition of Sign / Verify: the constructors that establish it are under contract for C12 / C05 where claimed, otherwise assumed",
 		"crypto/ecdsa.Sign / Verify, math/big and crypto/elliptic are assumed contracts (contracts/trusted/ecdsa.spec); the big-endian value of a byte string is unchanged by left zero-padding (assumed arithmetic fact)",
 	},
+	"C03": {
+		"build_tree returns a well-formed tree (treeOK): assumed clause; the probability statement and the equivalence of the scaled leaf check with individual verification are paper steps",
+		"the bytes crypto/rand.Read writes are named after the location they are written to (marker semantics; the module never draws twice into one buffer)",
+	},
 	"C12": {
 		"crypto/hkdf.Key is HKDF-SHA256 as a function of (secret, salt, info, length) whatever hash constructor is passed (function values are not compared); crypto/sha256 digests are unspecified (sizes and frames only)",
 		"crypto/ecdh P-256 NewPrivateKey/PublicKey/Bytes, btcec ScalarBaseMult compute the public point of the scalar (assumed); the ECDSA contexts' curves are assumed global facts",
@@ -434,6 +438,7 @@ var propExplanation = map[string]string{
 	"C02": "contract-based deductive verification of VerifyBLSSignatureOneMessage / ManyMessages (go/ssa) and bls_verifyPerDistinctMessage / bls_verifyPerDistinctKey (clang AST): validation, flattening loops, grouped pairing product",
 	"C04": "contract-based deductive verification of the aggregation functions against spec-level folds (sums) of their inputs",
 	"C07": "contract-based deductive verification of the DKG handlers: per-participant key-consistency invariants preserved by every handler for every order of arrival",
+	"C03": "contract-based deductive verification of the batch verification glue: premarking, coefficients, aggregation tree walk, verdict merge",
 	"C12": "contract-based deductive verification of key generation / decoding / public-key computation over assumed contracts of the HKDF and curve libraries",
 	"C11": "contract-based deductive verification of the ECDSA glue (Sign, Verify, signature format check) over assumed contracts of crypto/ecdsa and math/big",
 }
